@@ -780,6 +780,12 @@ func init() {
 					out = append(out, f20PiecesCase([]f20Fpiece{{kind: 'L', a: "a"}, t, {kind: 'L', a: "z"}}))
 				}
 			}
+			// every string of length <= 8 over { } b i: all ways two one-letter code tokens can
+			// nest, touch or be broken ({b}, {i} are real tokens; stable ones are re-run by the
+			// trim-order oracle under fresh map orders)
+			for _, t := range allStringsUpTo("{}bi", 8) {
+				out = append(out, Case{"L" + t})
+			}
 			out = append(out,
 				Case{"Pred,blue"}, Case{"Tred", "Pred,blue", "TRED", "Tb", "TB", "Tfoo", "L}"},
 				Case{"L{b{i}}"}, Case{"L{{b}i}"}, Case{"L{b{i}o{i}ld}"}, Case{"L{red"}, Case{"L{}"}, Case{},
@@ -787,8 +793,9 @@ func init() {
 			)
 			return out
 		},
-		Gen: genTrimCase,
-		Run: f20RunTrim,
+		Exhaustive: "all 87 381 byte strings of length <= 8 over { } b i",
+		Gen:        genTrimCase,
+		Run:        f20RunTrim,
 	})
 	Register(&Suite{
 		Name: "fmt.strip",
